@@ -191,7 +191,7 @@ fn main() {
         });
     }
     let started = std::time::Instant::now();
-    let (rep, err) = match args[1].as_str() {
+    let (mut rep, err) = match args[1].as_str() {
         "run" => {
             let prop = args[2].clone();
             let ctx = Ctx { tier, seed, shard: shard.0, nshards: shard.1, stage };
@@ -228,6 +228,12 @@ fn main() {
         }
         _ => usage(),
     };
+    if let Ok(g) = acmon::cfg::ACCESSOR_MISMATCH.lock() {
+        if let Some(d) = g.as_ref() {
+            rep.violation("accessors:mismatch", d.clone(), J::Null);
+        }
+    }
+    rep.tally_n("accessor_cross_checks", acmon::cfg::ACCESSOR_CHECKS.with(|c| c.get()));
     let mut j = rep.to_json();
     j.set("wall_ms", J::u(started.elapsed().as_millis() as u64));
     if let Some(e) = &err {
